@@ -373,6 +373,24 @@ def default_limits(ctx, prog, rule):
                 g = cfg_without_edges(x, [(be[0], be[1])])
                 if sites[0] not in reach(g, [0]):
                     guards.add(n)
+        # the same conjunction spelled `[&l.a, &l.b, ..].iter().all(|m| m.is_some())`
+        for bi, t in x.calls(lambda c, t: c.rsplit("::", 1)[-1] == "all" and len(t["args"]) == 2):
+            arr = [y for y in leaves(Rx.operand(t["args"][0])) if y[0] == "agg" and y[1][0] == "array"]
+            cl = strip(Rx.operand(t["args"][1]))
+            if not arr or not (cl[0] == "agg" and cl[1][0] == "closure" and cl[1][1] in prog.fns):
+                continue
+            h = prog.fns[cl[1][1]]
+            Rh = Resolver(h)
+            rt = strip(Rh.local(0))
+            is_some = rt[0] == "call" and rt[1].endswith("Option::<T>::is_some") and any(y == ("param", 2) for y in leaves(rt))
+            if not is_some:
+                continue
+            names_ = [leaf_name(e).rsplit(".", 1)[-1] for e in arr[0][2]]
+            be = bool_edges(x, bi)
+            if be and sites:
+                g = cfg_without_edges(x, [(be[0], be[1])])
+                if sites[0] not in reach(g, [0]):
+                    guards |= set(names_)
         ctx.ob(rule, "default-limits/complete-only/%s" % short(callee), len(sites) == 1 and guards == set(members), "%s is emitted only when %s are all Some (found guards %s)" % (short(callee), members, sorted(guards)))
 
 
